@@ -86,7 +86,7 @@ def flag_fields(ix):
     """Names of the fields of `Uci` through which the published running flag is reached: fields whose type holds an
     `Arc<AtomicBool>`, directly (`search_running: Option<Arc<AtomicBool>>`) or inside a crate struct (`search_task:
     Option<SearchTask>` with `SearchTask { running: Arc<AtomicBool>, thread: JoinHandle<()> }`)."""
-    key = id(ix)
+    key = ix.uid
     if key in _FLAG_FIELDS:
         return _FLAG_FIELDS[key]
 
